@@ -317,7 +317,21 @@ fn gen_neg_rule(rng: &mut Rng, u: &Uni, prem_preds: &[u32], varpred: usize, stat
     vars.sort();
     vars.dedup();
     let nn = rng.range(1, 2);
-    let negs: Vec<String> = (0..nn).map(|_| gen_conclusion(rng, u, &vars, &u.low, 0, stats)).collect();
+    // the negated atom's predicate is sometimes a variable (bound by a positive premise, hence safe): preferably one that
+    // stands in predicate position there
+    let pvars: Vec<String> = prems.iter().filter_map(|p| p.split('.').nth(1).filter(|t| t.starts_with('v')).map(|t| t.to_string())).collect();
+    let negs: Vec<String> = (0..nn)
+        .map(|_| {
+            let a = gen_conclusion(rng, u, &vars, &u.low, if pvars.is_empty() { 10 } else { 0 }, stats);
+            if !pvars.is_empty() && rng.chance(1, 2) {
+                stats.hit("negated_atom_with_variable_predicate");
+                let parts: Vec<&str> = a.split('.').collect();
+                format!("{}.{}.{}", parts[0], rng.pick(&pvars), parts[2])
+            } else {
+                a
+            }
+        })
+        .collect();
     let nc = rng.range(1, 2);
     let concl: Vec<String> = (0..nc).map(|_| gen_conclusion(rng, u, &vars, &u.up, 0, stats)).collect();
     let mut fs = Vec::new();
@@ -591,7 +605,8 @@ impl Prop for C05 {
                     pp.extend(u.up.iter());
                     rules.push(gen_neg_rule(rng, &u, &pp, 30, stats));
                 } else {
-                    rules.push(gen_neg_rule(rng, &u, &u.low, 0, stats));
+                    let vp = if rng.chance(1, 3) { 40 } else { 0 };
+                    rules.push(gen_neg_rule(rng, &u, &u.low, vp, stats));
                 }
             }
             if feeds {
